@@ -286,6 +286,7 @@ func TestC15TipFollowsBackend(t *testing.T) {
 		t0 := time.Unix(1_700_000_000, 0)
 		f := walletsim.New(t, "C15", &chaincfg.RegressionNetParams, seed, t0, 0)
 		f.StallIsViolation = true
+		f.PerAccount = true
 		defer f.Close()
 		f.Text = c.Text
 		f.Style = simchain.Style(rapid.IntRange(0, 1).Draw(t, "style"))
